@@ -81,6 +81,10 @@ package match
 //@   ensures [missing_ignored] !jsonHas(b, c.path) && !c.errOnMissingPath ==> len(errs) == 0 && out == b
 //@   ensures [one_error_at_most] len(errs) <= 1
 //@   ensures [owned] len(errs) == 0 ==> owned(out)
+//@   let cbv = applyVal(c.callback, jsonAt(b, c.path))
+//@   let cbe = applyErr(c.callback, jsonAt(b, c.path))
+//@   ensures [callback_error] jsonHas(b, c.path) && cbe != nil ==> len(errs) == 1 && errs[0].Reason == cbe
+//@   ensures [replaced] jsonHas(b, c.path) && cbe == nil && jsonSetErr(b, c.path, cbv) == nil ==> len(errs) == 0 && out == jsonSet(b, c.path, cbv)
 
 // ---- YAML variants: the caller's bytes are only read (parsed); the result is a fresh rendering -------------
 //@ func anyMatcher.YAML(a, b) returns (out, errs)
@@ -110,6 +114,7 @@ package match
 //@   ensures [parse_error] yParseErr(b) != nil ==> len(errs) == 1
 //@   ensures [missing_ignored] yParseErr(b) == nil && ypErr(c.path) == nil && !yHas(yParse(b), c.path) && yFilterErr(yParse(b), c.path) == yaml.ErrNotFoundNode && !c.errOnMissingPath ==> len(errs) == 0 && out == b
 //@   ensures [missing_error] yParseErr(b) == nil && ypErr(c.path) == nil && !yHas(yParse(b), c.path) && c.errOnMissingPath ==> len(errs) == 1
+//@   ensures [callback_error] yParseErr(b) == nil && ypErr(c.path) == nil && yHas(yParse(b), c.path) && applyErr(c.callback, yamlValueOf(yNodeText(yNodeOf(yParse(b), c.path)))) != nil ==> len(errs) == 1
 
 // ---- constructors and options ---------------------------------------------------------------------------
 //@ func Any(paths) returns (r)
